@@ -162,7 +162,7 @@ def execute(inp):
     arr = _build(inp["a"], inp["cols"], names, inp["hasbaf"])
     # what the real table holds, re-encoded (so that input and output pass through the same encoder)
     rec["a"] = [dict(r, mb=o["mb"], bf=o["bf"]) for r, o in zip(_proj(arr, names)[0], inp["a"])]
-    if inp["op"] == "direct":
+    if inp["op"] != "call":
         try:
             res = getattr(segfilters, inp["f"])(arr)
             rec["out"] = _proj(res, names)[0]
@@ -225,7 +225,8 @@ def _inputs_from_states(states, sc, names):
             d = dict(ROW_DEFAULT)
             d.update({k: (bool(v) if isinstance(v, bool) else int(v)) for k, v in r.items()})
             rows.append(d)
-        out.append({"op": kind, "f": fl[0] if kind == "direct" else "", "filters": list(fl) if kind == "call" else [],
+        direct = kind == "direct"
+        out.append({"op": fl[0] if direct else "call", "f": fl[0] if direct else "", "filters": [] if direct else list(fl),
                     "method": "none", "a": rows, "cols": dict(cols), "names": names, "hasbaf": False})
     return out
 
@@ -269,7 +270,7 @@ def _rand_table(rng, cols, hasbaf, big):
     zero_all = rng.random() < 0.05
     rows = []
     for c in range(1, nchrom + 1):
-        n = rng.randint(1, maxseg)
+        n = maxseg if rng.random() < 0.15 else rng.randint(1, maxseg)
         pos = rng.choice([0, rng.randint(0, 10**6)])
         lcent = _runs(rng, n, lambda: rng.choice(L_CENTRES), p_change)
         cns = _runs(rng, n, lambda: rng.choice(CN_PALETTE), p_change)
@@ -312,20 +313,20 @@ def _rand_table(rng, cols, hasbaf, big):
 def random_inputs(ctx: Ctx, n):
     rng = ctx.rng
     out = []
-    cases = [("direct", f, [], "none") for f in FILTERS]
+    cases = [(f, f, [], "none") for f in FILTERS]
     for m in METHODS:
         cases += [("call", "", fl, m) for fl in LISTS]
         cases.append(("call", "", [], m))
     for k in range(n):
         op, f, fl, method = cases[k % len(cases)] if rng.random() < 0.7 else rng.choice(cases)
         used = set(fl) | {f}
-        need_cn = op == "direct" and f in ("cn", "ampdel") or method == "none" and (used & {"cn", "ampdel"})
+        need_cn = op != "call" and f in ("cn", "ampdel") or method == "none" and (used & {"cn", "ampdel"})
         cols = {"cn": bool(need_cn) or rng.random() < 0.4,
                 "al": False,
                 "ci": "ci" in used or rng.random() < 0.25,
                 "sem": "sem" in used or rng.random() < 0.25}
         hasbaf = False
-        if op == "direct" or method == "none":
+        if op != "call" or method == "none":
             cols["al"] = cols["cn"] and rng.random() < 0.5
         else:
             hasbaf = rng.random() < 0.5
